@@ -224,6 +224,26 @@ pub fn other_tamperings(parts: &Parts, fmt: Fmt, alg: Alg, second: Option<&str>,
         out.push(Tampered { desc: format!("signature followed by {}", name), text: render_triple(parts, fmt, h, p, Some(&ns)), resolver: honest.clone(), triple: (h.to_string(), p.to_string(), Some(ns.clone())) });
     }
     out.push(Tampered { desc: "header preceded by an extra segment".into(), text: render_triple(parts, fmt, &format!("AAAA.{}", h), p, Some(s)), resolver: honest.clone(), triple: (format!("AAAA.{}", h), p.to_string(), Some(s.to_string())) });
+    // 4c. a segment re-spelled in another base64 dialect (same bytes for a lenient decoder, other
+    // characters): '=' padding appended, '-' written '+', '_' written '/'
+    for (pi, (name, part)) in [("header", h), ("payload", p), ("signature", s)].iter().enumerate() {
+        let mut variants: Vec<(String, String)> = vec![("'=' appended".into(), format!("{}=", part)), ("'==' appended".into(), format!("{}==", part))];
+        if part.contains('-') {
+            variants.push(("first '-' written '+'".into(), part.replacen('-', "+", 1)));
+            variants.push(("every '-' written '+'".into(), part.replace('-', "+")));
+        }
+        if part.contains('_') {
+            variants.push(("first '_' written '/'".into(), part.replacen('_', "/", 1)));
+        }
+        for (what, text) in variants {
+            let (nh, np, ns) = match pi {
+                0 => (text.as_str(), p, s),
+                1 => (h, text.as_str(), s),
+                _ => (h, p, text.as_str()),
+            };
+            out.push(Tampered { desc: format!("{} in another base64 dialect: {}", name, what), text: render_triple(parts, fmt, nh, np, Some(ns)), resolver: honest.clone(), triple: (nh.to_string(), np.to_string(), Some(ns.to_string())) });
+        }
+    }
     // 5. alg rewritten
     let msg_with = |nh: &str| format!("{}.{}", nh, p);
     let hdr = |v: Value| b64e(v.to_string().as_bytes());
@@ -507,6 +527,10 @@ pub fn check(case: &C02Case, st: &mut Stats) -> Verdict {
             for (pname, mut payload) in payloads {
                 if let Some(jwk) = &plant {
                     payload.insert("cnf".into(), json!({ "jwk": jwk }));
+                    // the OpenID "self-issued" way of naming one's own key
+                    payload.insert("sub_jwk".into(), jwk.clone());
+                } else if let Some(jwk) = spec.holder.jwk_value() {
+                    payload.insert("sub_jwk".into(), jwk);
                 }
                 let mut headers = vec![json!({"alg": salg.name()}), json!({"alg": spec.alg.name()})];
                 if let Some(jwk) = plant.clone().or_else(|| spec.holder.jwk_value()) {
